@@ -111,10 +111,10 @@ fn main() {
                     // scalars that are NOT initialised at the entry but only assigned later, on some paths, and read
                     // at most directly behind their assignment: still "no scalar can be read before it is assigned",
                     // but the sets of assigned scalars differ between the paths that meet at a join
-                    if rng.bool() {
+                    if rng.chance(4, 5) {
                         let nb = function.blocks().len();
                         let x8: Vec<il::Scalar> = scalars.iter().filter(|s| s.bits() == 8).cloned().collect();
-                        for k in 0..rng.range(1, 2) {
+                        for k in 0..rng.range(1, 3) {
                             let u = il::scalar(format!("late{}", k), 8);
                             for _ in 0..rng.range(1, 3) {
                                 let b = function.blocks()[rng.below(nb as u64) as usize].index();
